@@ -8,7 +8,12 @@
    turn; and (C18_offered_and_updated_leaves_queue) a vehicle that is offered the plug and whose update goes through has left the
    queue and is charging.  Hence a vehicle never leaves the queue to charge while an earlier one is left waiting — unless the
    earlier vehicle's OWN update was refused although the plug was free (it cannot use that plug type, lost access, ...).
-   PARTIAL: that last exception (hypothesis can_use) is not discharged by a theorem; correspondence + monitor c18_fifo. *)
+   That exception is now stated and discharged: C18_offered_plug_is_taken — in any state satisfying the C02 counts, C07/C10 places
+   invariants (both proved over every history), a queued vehicle whose powertrain is known and accepts the plug type it queues
+   for (can_use) and which finds that plug free at its turn CANNOT be refused: its update succeeds (exit the queue, check the plug
+   out, first charging step or "already full"), and so by the previous theorem it is charging afterwards.  What remains outside
+   the theorem: a vehicle that waits for a plug type its powertrain cannot use (excluded at DispatchStation.enter since fix acfbea2,
+   but ChargeQueueing can also be entered by an instruction directly). *)
 From Hive.Base Require Import Prelude.
 From Hive.Model Require Import Types KernelBase SimOps States Step.
 From Hive.Proofs Require Import Queue VehFrame Macro CountInv QueueServe.
@@ -34,6 +39,12 @@ Proof. exact offered_in_queue_order. Qed.
 Theorem C18_offered_and_updated_leaves_queue : forall env vid qs qc t s s', vkeys s -> terminal env vid (ChargeQueueing qs qc t) s = true ->
   vs_update env vid (ChargeQueueing qs qc t) s = Ok s' -> vstate_of s' vid = Some (ChargingStation qs qc).
 Proof. exact offered_and_updated_leaves_queue. Qed.
+Theorem C18_offered_plug_is_taken : forall env, (forall g, e_fence env g = true) -> forall s vid v qs qc t,
+  vkeys s -> Inv_counts s -> PlaceInv.Inv_place s -> find vid (vehicles s) = Some v -> v_state v = ChargeQueueing qs qc t ->
+  can_use env s v qs qc -> terminal env vid (ChargeQueueing qs qc t) s = true ->
+  exists s', vs_update env vid (ChargeQueueing qs qc t) s = Ok s'.
+Proof. exact offered_plug_is_taken. Qed.
+Print Assumptions C18_offered_plug_is_taken.
 Print Assumptions C18_offered_in_queue_order. Print Assumptions C18_offered_and_updated_leaves_queue.
 
 Print Assumptions C18_order_is_others_then_queue. Print Assumptions C18_everyone_processed.
